@@ -146,12 +146,18 @@ func tab(header []string, rows ...[]string) Table {
 // LockTimeoutCode is the exit code of "lock wait timeout period exceeded" (ReturnCodeContextDone).
 const LockTimeoutCode = 8
 
+// StdinCSV is what the in-process seam gives the session as standard input.
+const StdinCSV = "k,s\nk1,p\nk2,q\n"
+
 // KBytes: a table another process holds locked while the procedure runs (terminator LK); never changed.
 const KBytes = "k,v\n1,x\n"
 
 func NewState() *State {
 	st := &State{Files: map[string]*File{}, Order: []string{"t1", "t2", "n", "l", "m", "k"}, Scopes: []Scope{{}}}
 	kt := tab([]string{"k", "v"}, []string{"1", "x"})
+	// the standard-input table: an in-memory table of the outermost scope, like a temporary table
+	sin := tab([]string{"k", "s"}, []string{"k1", "p"}, []string{"k2", "q"})
+	st.Scopes[0]["STDIN"] = &Temp{Cur: sin, Restore: sin.Clone()}
 	st.Files["k"] = &File{Tab: "k", Name: "k.csv", Format: "CSV", DiskExists: true, Disk: kt, Accept: []string{KBytes}, WorkExists: true, Work: kt.Clone()}
 	t1 := tab([]string{"a", "b"}, []string{"1", "x"}, []string{"2", "y"})
 	t2 := tab([]string{"a", "c"}, []string{"1", "p"}, []string{"3", "q"})
@@ -294,6 +300,8 @@ var sqlOf = map[string]string{
 	"D2z": "DELETE FROM t2 WHERE a = 99;",
 	"AV":  "ALTER TABLE v ADD x;",
 	"RV":  "ALTER TABLE v RENAME w TO ww;",
+	"IS":  "INSERT INTO STDIN VALUES ('k9', 'i');",
+	"US":  "UPDATE STDIN SET s = 'u' WHERE k = 'k1';",
 	"CLX": "CREATE TABLE `m.ltsv` (k, v) AS SELECT 1, 'a\\tb';",
 	// terminators
 	"E1":  "UPDATE t1 SET b = 1/0;",
@@ -646,6 +654,18 @@ func (r *runner) stmt(n *Node) *stop {
 			v.Cur.Rows[i] = append(v.Cur.Rows[i], Nul())
 		}
 		v.Dirty = true
+	case "IS":
+		v := st.temp("STDIN")
+		v.Cur.Rows = append(v.Cur.Rows, []Cell{S("k9"), S("i")})
+		v.Dirty = true
+	case "US":
+		v := st.temp("STDIN")
+		for _, row := range v.Cur.Rows {
+			if row[0].Text() == "k1" {
+				row[1] = S("u")
+				v.Dirty = true
+			}
+		}
 	case "RV":
 		// the number of columns stays the same: only the header distinguishes the two states
 		v := st.temp("v")
